@@ -35,12 +35,18 @@ type Schema struct {
 	Auto     bool     // first key column is AUTO_INCREMENT
 	Nullable bool     // w2 is NULL for w = 0
 	Zoo      bool     // extra columns of many types with fixed per-key values
+	Harsh    bool     // zoo with the value classes that have known defects (C08)
 	KeyKind  string   // int | comp | str
 }
 
 // Family returns the schema family. Names are fixed so that a cached table definition never goes stale.
 func Family() []*Schema {
-	zoo := `, z_dec DECIMAL(10,2) NOT NULL DEFAULT 1.50, z_dbl DOUBLE NOT NULL DEFAULT 2.25, z_big BIGINT NOT NULL DEFAULT 9007199254740993,` +
+	// t_zoo: many column types with values every serializer and the undo validation handle. The value classes
+	// with known defects (DECIMAL, BIGINT beyond 2^53, FLOAT, binary, unsigned ...) are C08's business and are
+	// kept out of the other properties' schema family on purpose (named switch: schema t_zooh, VERIF_ZOO_HARSH=1).
+	zoo := `, z_dbl DOUBLE NOT NULL DEFAULT 2.25, z_big BIGINT NOT NULL DEFAULT 1234567890123,` +
+		` z_ts DATETIME NOT NULL DEFAULT '2024-02-03 04:05:06', z_txt TEXT, z_tiny TINYINT NOT NULL DEFAULT 1`
+	zooh := `, z_dec DECIMAL(10,2) NOT NULL DEFAULT 1.50, z_dbl DOUBLE NOT NULL DEFAULT 2.25, z_big BIGINT NOT NULL DEFAULT 9007199254740993,` +
 		` z_ts DATETIME NOT NULL DEFAULT '2024-02-03 04:05:06', z_txt TEXT, z_tiny TINYINT NOT NULL DEFAULT 1`
 	return []*Schema{
 		{Name: "t_int", KeyKind: "int", KeyCols: []string{"id"},
@@ -55,6 +61,8 @@ func Family() []*Schema {
 			DDL: "CREATE TABLE t_auto (id BIGINT NOT NULL AUTO_INCREMENT, w1 INT NOT NULL, w2 VARCHAR(64) NOT NULL, u1 INT NOT NULL, PRIMARY KEY (id))"},
 		{Name: "t_zoo", KeyKind: "int", KeyCols: []string{"id"}, Zoo: true,
 			DDL: "CREATE TABLE t_zoo (id INT NOT NULL, w1 INT NOT NULL, w2 VARCHAR(64) NOT NULL, u1 INT NOT NULL" + zoo + ", PRIMARY KEY (id))"},
+		{Name: "t_zooh", KeyKind: "int", KeyCols: []string{"id"}, Zoo: true, Harsh: true,
+			DDL: "CREATE TABLE t_zooh (id INT NOT NULL, w1 INT NOT NULL, w2 VARCHAR(64) NOT NULL, u1 INT NOT NULL" + zooh + ", PRIMARY KEY (id))"},
 	}
 }
 
@@ -119,8 +127,15 @@ func (s *Schema) ToAbstract(row map[string]interface{}) Row {
 		return Row{-2, -2}
 	}
 	if s.Zoo {
-		if fmt.Sprint(row["z_dec"]) != "1.50" || fmt.Sprint(row["z_big"]) != "9007199254740993" ||
-			fmt.Sprint(row["z_tiny"]) != "1" || fmt.Sprint(row["z_dbl"]) != "2.25" {
+		big := "1234567890123"
+		if s.Harsh {
+			big = "9007199254740993"
+			if fmt.Sprint(row["z_dec"]) != "1.50" {
+				return Row{-2, -2}
+			}
+		}
+		if fmt.Sprint(row["z_big"]) != big || fmt.Sprint(row["z_tiny"]) != "1" || fmt.Sprint(row["z_dbl"]) != "2.25" ||
+			!strings.HasPrefix(fmt.Sprint(row["z_ts"]), "2024-02-03 04:05:06") || row["z_txt"] != nil {
 			return Row{-2, -2}
 		}
 	}
